@@ -142,9 +142,8 @@ def createFlowInstance (flowId : String) (params rets : List Param) (ev : Ctx) :
   match start with
   | .error e => .error e
   | .ok c0 =>
-    let (a1, c1) := bindNamed ev params ([], c0)
-    let a2 := bindPos ev params 0 a1
-    .ok { flowId := flowId, arguments := a2, context := bindRet rets c1 }
+    let r := bindNamed ev params ([], c0)
+    .ok { flowId := flowId, arguments := bindPos ev params 0 r.1, context := bindRet rets r.2 }
 
 /-- The loop of `_start_flow` over `enumerate(flow_state.arguments)`; returns the new context and
     `last_idx + 1`. -/
@@ -159,9 +158,9 @@ def startFlow (isMain : Bool) (ev : Ctx) (f : Inst) : Except Err Inst :=
   if isMain then .ok f
   else match lookup (.name "source_flow_instance_uid") ev, lookup (.name "source_head_uid") ev with
     | some p, some _ =>
-      let (c, nxt) := startLoop ev (keys f.arguments) 0 f.context
-      if has (.pos nxt) ev then .error .tooMany
-      else .ok { f with context := c, parent := some p }
+      let r := startLoop ev (keys f.arguments) 0 f.context
+      if has (.pos r.2) ev then .error .tooMany
+      else .ok { f with context := r.1, parent := some p }
     | _, _ => .error .keyError
 
 /-- `slide`, branch `Assignment`: `if f"_global_{key}" in flow_state.context: state.context[key] = v
